@@ -288,18 +288,35 @@ def _dedup(kv):
 
 
 def objs(sub=None, ident="o"):
-    """Probe objects: attributes and items drawn independently over the same small name pool, so a
-    name is often present in both tables with different values."""
+    """Probe objects: attribute table and item table over the same small name pool.  For every attribute
+    the item table gets, with probability 1/2, an entry of the same name with its own value, so
+    attribute-vs-item preference is observable."""
     st = _st()
     sub = sub if sub is not None else scalars()
-    leaf = st.one_of(sub, st.just({"$": "fn", "name": "meth"}))
+    leaf = st.one_of(sub, sub, st.just({"$": "fn", "name": "meth"}))
     attrs = st.dictionaries(st.sampled_from(ATTR_NAMES), leaf, max_size=3)
-    items = st.lists(st.tuples(st.one_of(st.sampled_from(ATTR_NAMES), st.integers(0, 2)), sub).map(list), max_size=3).map(_dedup)
-    return st.builds(lambda a, i: {"$": "obj", "id": ident, "attrs": a, "items": i}, attrs, items)
+    extra = st.lists(st.tuples(st.one_of(st.sampled_from(ATTR_NAMES), st.integers(0, 2)), sub).map(list), max_size=2)
+    shadow = st.lists(st.tuples(st.booleans(), sub), min_size=3, max_size=3)
+
+    def build(a, sh, ex):
+        items = [[k, v] for k, (on, v) in zip(a, sh) if on]
+        return {"$": "obj", "id": ident, "attrs": a, "items": _dedup(items + ex)}
+
+    return st.builds(build, attrs, shadow, extra)
+
+
+_of_type_cache = {}
 
 
 def of_type(ty, name="v", nonfinite=True):
-    """Encoded value strategy for one schema type."""
+    """Encoded value strategy for one schema type (built once per distinct request)."""
+    key = (ty, name, nonfinite)
+    if key not in _of_type_cache:
+        _of_type_cache[key] = _of_type(ty, name, nonfinite)
+    return _of_type_cache[key]
+
+
+def _of_type(ty, name, nonfinite):
     st = _st()
     if ty == "int":
         return ints()
@@ -333,28 +350,43 @@ def of_type(ty, name="v", nonfinite=True):
         return st.just({"$": "missing"})
     if ty == "any":
         return values(nonfinite, 2)
+    if ty == "any1":
+        return values(nonfinite, 1)
+    if ty == "pct":
+        return st.integers(0, 99)
     raise ValueError(ty)
 
 
 def contexts(schema=None, nonfinite=True, p_wrong=0.06, p_missing=0.03):
+    """Cached front end of _contexts (building a @composite strategy costs milliseconds)."""
+    schema = DEFAULT_SCHEMA if schema is None else schema
+    key = ("ctx", tuple(sorted(schema.items())), nonfinite, p_wrong, p_missing)
+    if key not in _of_type_cache:
+        _of_type_cache[key] = _contexts(schema, nonfinite, p_wrong, p_missing)
+    return _of_type_cache[key]
+
+
+def _contexts(schema, nonfinite, p_wrong, p_missing):
     """Encoded context for a schema: each name gets a value of its type, with a small probability a value
     of another type (ill-typed operands exercise the error classes) or no binding at all (undefined)."""
     st = _st()
-    schema = DEFAULT_SCHEMA if schema is None else schema
     names = sorted(schema)
+    pct = of_type("pct")
+    wrong = of_type("any1", "v", nonfinite)
 
     @st.composite
     def ctx(draw):
         out = {}
         for name in names:
             ty = schema[name]
-            r = draw(st.integers(0, 99))
+            r = draw(pct)
             if ty == "undef":
                 continue
+            r = 99 - r  # the minimal draw means "a value of the declared type"
             if r < int(p_missing * 100):
                 continue
             if r < int((p_missing + p_wrong) * 100) and ty != "fn":
-                out[name] = draw(values(nonfinite, 1))
+                out[name] = draw(wrong)
             else:
                 out[name] = draw(of_type(ty, name, nonfinite))
         return out
